@@ -79,6 +79,22 @@ def check_case(ctx, L, case):
         if x != y:
             ctx.problem("C09:event-eq", f"stream event {i} {got[i]} does not compare equal to the individual decode's event (declared type objects: {x.type!r} vs {y.type!r})", payload)
             return
+    if len(case.data) % 3 == 0 or "identical_consecutive_messages" in case.meta.get("flags", []):
+        # the same messages as the packets of a capture (one packet each): boundaries still come from the messages, and a
+        # message that repeats the bytes of the one before it is a message of its own
+        from tpmstream.io.pcapng import Pcapng
+
+        from .. import context
+
+        cap = context.pcapng_bytes(case.data)
+        if cap is not None:
+            p = O.run_decode("CommandResponseStream", cap, strict=True, marshal=Pcapng.marshal)
+            ctx.count("streams-as-captures")
+            pg = [O.event_tuple(e) + (O.value_class(e),) for e in p.raw]
+            d = first_diff(pg, want)
+            if p.outcome["kind"] != "ok" or d is not None:
+                ctx.problem("C09:capture", f"the messages as packets of a capture end with {p.outcome['kind']}; event {d} is {pg[d] if d is not None and d < len(pg) else None}, the individual decodes give {want[d] if d is not None and d < len(want) else None}; stream {case.data.hex()} ({[(m[0], hex(m[1])) for m in msgs]})", payload)
+                return
     res = ctx.guard(lambda: list(events_to_objs(list(s.raw))), "C09:events_to_objs", payload)
     if res is None:
         return
